@@ -131,6 +131,7 @@ struct OpCmp { const Args& a; int t2;
       return os.str(); } };
 };
 
+static std::string run_case(const Args& a);
 static std::string run_case(const Args& a) {
   const std::string& op = a[0];
   // ---------------- civil time (C04, C05, C17) ----------------
